@@ -1598,6 +1598,27 @@ class Run:
             first, acc, fn = "__it%d" % k, "__acc%d" % k, "__fold%d" % k
             env2 = dict(env)
             stmts, last = self._stage_stmts(stages, env2, first)
+            p0 = e["args"][1]["params"][0] if m == "fold" else None
+            if isinstance(p0, dict) and "pat" in p0 and "k" not in p0:
+                p0 = p0["pat"]
+            if m == "fold" and e["args"][0].get("k") == "Tuple" and isinstance(p0, dict) and p0.get("k") == "PTuple" and len(p0["elems"]) == len(e["args"][0]["elems"]) >= 2:
+                # a tuple of accumulators is one local per component: `fold((a0, b0), |(a, b), x| (fa, fb))` is
+                # `{ let mut a = a0; let mut b = b0; for x in SRC { let (ta, tb) = (fa, fb); a = ta; b = tb }; (a, b) }`
+                n_acc = len(p0["elems"])
+                accs = ["%s_%d" % (acc, i) for i in range(n_acc)]
+                tmps = ["__t%d_%d" % (k, i) for i in range(n_acc)]
+                env2[fn] = self.eval(e["args"][1], env2)
+                call = {"k": "Call", "f": path(fn), "args": [{"k": "Tuple", "elems": [path(a) for a in accs]}, path(last)]}
+                steps = [{"k": "Let", "pat": {"k": "PTuple", "elems": [ident(t) for t in tmps]}, "init": call, "else": None}]
+                steps += [{"k": "ExprStmt", "e": {"k": "Assign", "lhs": path(a), "rhs": path(t)}, "semi": True} for a, t in zip(accs, tmps)]
+                loop = {"k": "For", "pat": ident(first), "iter": src, "body": stmts + steps, "label": None}
+                blk = [{"k": "Let", "pat": ident(a, True), "init": x, "else": None} for a, x in zip(accs, e["args"][0]["elems"])]
+                blk += [{"k": "ExprStmt", "e": loop, "semi": True}, {"k": "ExprStmt", "e": {"k": "Tuple", "elems": [path(a) for a in accs]}, "semi": False}]
+                r = self.block(blk, env2)
+                for k2 in list(env.keys()):
+                    if k2 in env2:
+                        env[k2] = env2[k2]
+                return r
             if m == "fold":
                 env2[fn] = self.eval(e["args"][1], env2)
                 step = {"k": "ExprStmt", "e": {"k": "Assign", "lhs": path(acc), "rhs": {"k": "Call", "f": path(fn), "args": [path(acc), path(last)]}}, "semi": True}
@@ -1649,6 +1670,9 @@ class Run:
         if isinstance(recv, tuple) and recv[0] == "ctor" and recv[1] in ("Some", "None"):
             if m in ("unwrap", "expect") and recv[1] == "Some":
                 return recv[2][0]
+            if m in ("unwrap", "expect") and recv[1] == "None" and self.cfg.generic_loops:
+                self.act("panic!")
+                raise _Return(("unk", "!"))
             if m == "is_some":
                 return recv[1] == "Some"
             if m == "is_none":
@@ -1656,6 +1680,14 @@ class Run:
         if m in ("max", "min") and len(args) == 1 and (is_unk(recv) or isinstance(recv, int)) and not (isinstance(recv, tuple) and recv[0] == "closure") and self.family(e["recv"], recv) is None \
                 and not (e["recv"].get("k") == "MethodCall" and e["recv"]["m"] in ("iter", "into_iter", "map", "filter", "chars", "bytes", "rev", "cloned", "copied", "values", "keys")):
             return self.min_max(m, recv, args[0])
+        if m == "checked_sub" and len(args) == 1 and self.cfg.generic_loops and (is_unk(recv) or isinstance(recv, int)) and (is_unk(args[0]) or isinstance(args[0], int)):
+            # a.checked_sub(b) is `if a < b { None } else { Some(a - b) }`
+            a, b = self.resolve(recv), self.resolve(args[0])
+            if isinstance(a, int) and isinstance(b, int) and not isinstance(a, bool) and not isinstance(b, bool):
+                return ("ctor", "None", ()) if a < b else ("ctor", "Some", (a - b,))
+            if self.truth(("unk", "(%s < %s)" % (showv(a), showv(b))), None):
+                return ("ctor", "None", ())
+            return ("ctor", "Some", (("unk", "(%s - %s)" % (showv(a), showv(b))),))
         if m in OPTION_METHODS:
             r = self.option_method(e, recv, args)
             if r is not NotImplemented:
